@@ -789,6 +789,12 @@ for _m in ("least_confident", "margin_sampling"):
 pool_case(P.Clue, "seeded-clf-lr", {"cluster_algo_dict": SEEDED},
           models=M(clf=sk_lr), modes=MAPPED)
 
+# a caller-owned clustering dict without `random_state`: the strategy has to add its per-call seed to a copy (seed R9C06)
+_NINIT = fresh(lambda: {"n_init": 1})
+pool_case(P.Clue, "dict-without-seed", {"cluster_algo_dict": _NINIT}, models=M(clf=pwc), modes=MAPPED)
+pool_case(P.TypiClust, "dict-without-seed", {"cluster_algo_dict": _NINIT}, modes=MAPPED)
+pool_case(P.ProbCover, "dict-without-seed", {"cluster_algo_dict": _NINIT}, modes=MAPPED, lazy_none=("n_classes", "deltas"))
+pool_case(P.DropQuery, "dict-without-seed", {"cluster_algo_dict": _NINIT}, models=M(clf=pwc), modes=MAPPED)
 pool_case(P.DropQuery, "seeded", {"cluster_algo_dict": SEEDED},
           models=M(clf=pwc), modes=MAPPED)
 pool_case(P.DropQuery, "unseeded", models=M(clf=pwc), modes=MAPPED,
